@@ -326,6 +326,10 @@ def gen_listop(w, r, pure=False):
         op["args"] = [_idx(r, n), x]
     elif meth == "setslice":
         s = _slc(r, n)
+        if len(irs) > 1 and r.random() < w.cfg.get("p_wrapper_arg", 0.2) * 0.5:
+            # ir.modules[a:b] = other_ir.modules (or a lazy view of it)
+            op["args"] = [s, _lazy_view(w, r, {"from_ir": pick(r, [x for x in irs if x != I])})]
+            return op
         items = mods_list(r.randrange(0, 4))
         a = {"items": items, "style": r.choice(["list", "tuple", "iter"])}
         if r.random() < 0.08:
